@@ -346,6 +346,17 @@ def _bind(call: ast.Call, info: _Info, is_method_call: bool) -> Tuple[Dict[str, 
     return mapping, pre
 
 
+
+def _table_value_ids(node: ast.AST) -> set:
+    """ids of Name nodes that are values of a dispatch-table dict literal ({K: f, ...}): being listed in
+    such a table is not a use of the function as a first-class value for inlining purposes."""
+    out = set()
+    for d in ast.walk(node):
+        if isinstance(d, ast.Dict) and d.values and all(isinstance(v, ast.Name) for v in d.values):
+            out |= {id(v) for v in d.values}
+    return out
+
+
 class Inliner:
     def __init__(self, tree: ast.Module, modname: str, baseline):
         self.tree = tree
@@ -357,6 +368,8 @@ class Inliner:
         self.bases: Dict[str, List[str]] = {}
         self._collect(tree.body, None)
         self.renamed: Dict[str, str] = {}
+        self.new_classes: set = set()
+        self.new_methods: Dict[str, List[str]] = {}
         if baseline is not None:
             self.renamed = detect_renames(self.funcs, baseline)
             if self.renamed:
@@ -369,6 +382,20 @@ class Inliner:
                     continue  # a renamed baseline function is an anchor, not an extracted helper
                 if q not in baseline and q.split(".")[-1].startswith("_") and not q.split(".")[-1].startswith("__"):
                     self.unknown[q] = inf
+            # classes that did not exist at the baseline: all their (non-dunder) methods are extracted code
+            base_classes = {b.split(".")[0] for b in baseline if "." in b and ".<locals>." not in b}
+            self.new_classes = {n.name for n in tree.body if isinstance(n, ast.ClassDef) and n.name not in base_classes and n.name.startswith("_")}
+            self.new_methods: Dict[str, List[str]] = {}
+            for q, inf in self.funcs.items():
+                if "." in q and q.split(".")[0] in self.new_classes:
+                    mname = q.split(".")[-1]
+                    if mname.startswith("__") and mname != "__call__":
+                        continue
+                    self.unknown[q] = inf
+                    self.new_methods.setdefault(mname, []).append(q)
+            # method names also defined by baseline classes of this module are ambiguous on an arbitrary receiver
+            known_method_names = {b.split(".")[-1] for b in baseline if "." in b and ".<locals>." not in b}
+            self.new_methods = {m: qs for m, qs in self.new_methods.items() if len(qs) == 1 and m not in known_method_names}
 
     def _apply_renames(self, tree: ast.Module) -> None:
         """A baseline function that was merely renamed gets its baseline name back (definition and every
@@ -418,6 +445,16 @@ class Inliner:
                 if q in self.unknown:
                     return q, self.unknown[q], True
                 todo += self.bases.get(c, [])
+        if isinstance(f, ast.Attribute) and isinstance(f.value, ast.Name):
+            # ClassName.classmethod(...) / ClassName.staticmethod(...) of a new private class
+            if f.value.id in self.new_classes:
+                q = f"{f.value.id}.{f.attr}"
+                if q in self.unknown:
+                    return q, self.unknown[q], True
+            # instance.method(...) where the method name belongs to exactly one new private class
+            qs = self.new_methods.get(f.attr)
+            if qs and f.value.id not in ("self", "cls") and not any(isinstance(d, ast.Name) and d.id in ("staticmethod", "classmethod") for d in self.unknown[qs[0]].node.decorator_list):
+                return qs[0], self.unknown[qs[0]], True
         return None
 
     def _inlinable(self, q: str, inf: _Info, caller_q: str) -> bool:
@@ -933,7 +970,23 @@ class Inliner:
                             setattr(node, field, self.visit(old))
                     return node
 
+                def visit_Attribute(self, a):
+                    # a bound method of a new private class used as a value:  on_error=recorder.record
+                    self.generic_visit(a)
+                    qs = outer.new_methods.get(a.attr) if isinstance(a.ctx, ast.Load) and isinstance(a.value, ast.Name) else None
+                    if qs and id(a) not in self._call_funcs:
+                        fake = ast.Call(func=ast.Name(id="partial", ctx=ast.Load()), args=[a], keywords=[])
+                        outer._n_closures += 1
+                        fd = outer._closure_for_partial(fake, cls, f"_sv_bound{outer._n_closures}")
+                        if fd is not None:
+                            new_defs.append(fd)
+                            return ast.copy_location(ast.Name(id=fd.name, ctx=ast.Load()), a)
+                    return a
+
+                _call_funcs: set = set()
+
                 def visit_Call(self, c):
+                    self._call_funcs.add(id(c.func))
                     self.generic_visit(c)
                     if outer._is_partial(c):
                         outer._n_closures += 1
@@ -1016,7 +1069,7 @@ class Inliner:
                 # inlinable inside their enclosing function, provided they are only ever called
                 added = []
                 if self.baseline is not None:
-                    call_funcs = {id(c.func) for c in ast.walk(inf.node) if isinstance(c, ast.Call)}
+                    call_funcs = {id(c.func) for c in ast.walk(inf.node) if isinstance(c, ast.Call)} | _table_value_ids(inf.node)
                     value_uses = {x.id for x in ast.walk(inf.node) if isinstance(x, ast.Name) and isinstance(x.ctx, ast.Load) and id(x) not in call_funcs}
                     for x in _walk_own(inf.node):
                         if isinstance(x, ast.FunctionDef) and f"{q}.<locals>.{x.name}" not in self.baseline and x.name not in self.unknown and x.name not in value_uses and not x.decorator_list:
@@ -1105,7 +1158,7 @@ def inline_closures(fn_node: ast.FunctionDef) -> Tuple[ast.FunctionDef, List[str
     tree = ast.Module(body=[node], type_ignores=[])
     inl = Inliner(tree, "<view>", None)
     kids = {x.name: x for x in _walk_own(node) if isinstance(x, ast.FunctionDef)}
-    call_funcs = {id(c.func) for c in ast.walk(node) if isinstance(c, ast.Call)}
+    call_funcs = {id(c.func) for c in ast.walk(node) if isinstance(c, ast.Call)} | _table_value_ids(node)
     value_uses = {x.id for x in ast.walk(node) if isinstance(x, ast.Name) and isinstance(x.ctx, ast.Load) and id(x) not in call_funcs}
     for name, k in kids.items():
         if name not in value_uses:
